@@ -66,6 +66,8 @@ def enumerate_cases(tier):
                 yield {"form": form, "meta": {"pattern": list(pat)}}
 
 
+SPELLINGS = {"g": [("begin group", "end group"), ("begin_group", "end_group"), ("Begin Group", "End Group")],
+             "r": [("begin repeat", "end repeat"), ("begin_repeat", "end_repeat"), ("begin lgroup", "end lgroup"), ("begin looped group", "end looped group")]}
 BAD_DATASET = {"__people": "reserved", "peo.ple": "period", "1people": "invalid", "peo ple": "invalid", "$x": "invalid"}
 BAD_PROP = {"name": "reserved", "Label": "reserved", "NAME": "reserved", "__x": "reserved-prefix", "1x": "invalid", "a b": "invalid"}
 
@@ -104,7 +106,15 @@ def _cases(draw):
     if g.p("_", 0.08):
         row[g.pick(["entity_name", "what", "repeat"])] = "x"
         meta["bad"].append("unknown-column")
+    if g.p("_", 0.08):
+        col = g.pick([c for c in COLS if c in row] or ["label"])
+        row[col + g.pick(["::English (en)", "::x", ":: y"])] = row.pop(col, "'v'")
+        meta["bad"].append("unknown-column")
     form["entities"] = [row]
+    if g.p("_", 0.1):
+        # an empty row above the declaration (spreadsheet readers keep empty rows)
+        form["entities"].insert(0, {})
+        meta["blank_row"] = True
     if g.p("_", 0.06):
         form["entities"].append({"dataset": "second", "label": "'l'"})
         meta["bad"].append("two-rows")
@@ -113,8 +123,23 @@ def _cases(draw):
     for _ in range(k):
         if g.p("_", 0.12) and cont:
             n, anc = g.pick(cont)
-            n["c"]["save_to"] = g.name("p")
+            # every documented spelling of the container rows; the cell may sit on the begin row or on the end row
+            if g.p("_", 0.5):
+                b, e = g.pick(SPELLINGS[n["k"]])
+                n["c"]["type"] = b
+                n["end"] = {"type": e}
+            if g.p("_", 0.25):
+                n.setdefault("end", {"type": model.END[n["k"]]})["save_to"] = g.name("p")
+            else:
+                n["c"]["save_to"] = g.name("p")
             meta["bad"].append("saveto-on-container")
+            continue
+        if g.p("_", 0.06) and not any(n_["c"].get("type") == "audit" for n_, _ in model.walk(form["nodes"])):
+            # the audit row is a survey row like any other for the save_to checks
+            prop = g.name("p") if g.p("_", 0.4) else g.pick(list(BAD_PROP))
+            form["nodes"].append({"k": "q", "c": {"type": "audit", "name": "audit", "save_to": prop}})
+            if prop in BAD_PROP:
+                meta["bad"].append("saveto:" + BAD_PROP[prop])
             continue
         if not qs:
             break
@@ -140,7 +165,7 @@ def strategy(tier):
 def _recompute_meta(form, meta):
     """the shrinker may delete cells: recompute what the case plants from the form itself"""
     m = {"bad": [], "no_sheet": "entities" not in form}
-    ents = form.get("entities") or []
+    ents = [r for r in form.get("entities") or [] if r]
     if ents:
         row = ents[0]
         m["pattern"] = [int(bool(row.get(c))) for c in COLS]
@@ -154,11 +179,18 @@ def _recompute_meta(form, meta):
         if len(ents) > 1:
             m["bad"].append("two-rows")
     for n, anc in model.walk(form.get("nodes", [])):
+        if n["k"] in ("g", "r") and "save_to" in n.get("end", {}):
+            if not ents:
+                m["bad"].append("no-entities-sheet")
+            m["bad"].append("saveto-on-container")
         if "save_to" in n["c"]:
             if not ents:
                 m["bad"].append("no-entities-sheet")
             if n["k"] in ("g", "r"):
                 m["bad"].append("saveto-on-container")
+            elif n["c"].get("type") == "audit":
+                if n["c"]["save_to"] in BAD_PROP:
+                    m["bad"].append("saveto:" + BAD_PROP[n["c"]["save_to"]])
             else:
                 if any(a["k"] == "r" for a in anc):
                     m["bad"].append("saveto-in-repeat")
@@ -234,7 +266,7 @@ def check_accepted(out, form, v, pat, has_sheet):
     if not has_sheet or ent is None:
         return
     i, c, u, l = pat
-    row = form["entities"][0]
+    row = [r for r in form["entities"] if r][0]
     ds = row.get("dataset", row.get("list_name"))
     # attributes of meta/entity
     want_attrs = {"dataset": ds, "id": ""}
